@@ -295,4 +295,72 @@ theorem clip_simple_merge_union (poly : List Pt) (s : Seg) (t : Rat) :
   intro ab h
   exact (clip_simple_sound_partial poly s ab.1 ab.2 h).2.1.le
 
+/-! ### polygons clipped by a convex polyhedron (Sutherland–Hodgman reference) -/
+
+/-- every vertex of the clipped polygon satisfies every half-space of the polyhedron (a new
+    vertex lies on the clipping plane and, being a convex combination of two vertices that satisfy
+    the half-spaces treated before, still satisfies those) -/
+theorem sh_clip_sound (hs : List HS) (poly : List P3) (X : P3) (hX : X ∈ shClip hs poly) :
+    ∀ h ∈ hs, h.eval X ≤ 0 := by
+  induction hs generalizing poly with
+  | nil => intro h hh; cases hh
+  | cons h hs ih =>
+    intro g hg
+    simp only [shClip] at hX
+    rcases List.mem_cons.mp hg with rfl | hg
+    · exact shClip_preserves hs g (shClip1 g poly) (fun P hP => shClip1_sound g poly P hP) X hX
+    · exact ih (shClip1 h poly) hX g hg
+
+/-- a polygon that is already inside is returned unchanged -/
+theorem sh_clip_inside_unchanged (hs : List HS) (poly : List P3)
+    (hin : ∀ P ∈ poly, ∀ h ∈ hs, h.eval P ≤ 0) : shClip hs poly = poly := by
+  induction hs with
+  | nil => rfl
+  | cons h hs ih =>
+    have h1 : shClip1 h poly = poly := by
+      cases poly with
+      | nil => rfl
+      | cons a rest =>
+        exact shAux_inside h a (a :: rest) (hin a (by simp) h (by simp)) (fun P hP => hin P hP h (by simp))
+    simp only [shClip, h1]
+    exact ih (fun P hP g hg => hin P hP g (List.mem_cons_of_mem _ hg))
+
+/-! ### non-vacuity: concrete data for every theorem -/
+
+section Examples
+
+def sq : List Pt := [⟨0, 0⟩, ⟨2, 0⟩, ⟨2, 2⟩, ⟨0, 2⟩]
+def sqCW : List Pt := [⟨0, 0⟩, ⟨0, 2⟩, ⟨2, 2⟩, ⟨2, 0⟩]
+def lShape : List Pt := [⟨0, 0⟩, ⟨2, 0⟩, ⟨2, 1⟩, ⟨1, 1⟩, ⟨1, 2⟩, ⟨0, 2⟩]
+def uShape : List Pt := [⟨0, 0⟩, ⟨3, 0⟩, ⟨3, 3⟩, ⟨2, 3⟩, ⟨2, 1⟩, ⟨1, 1⟩, ⟨1, 3⟩, ⟨0, 3⟩]
+/-- the polygon of the repaired GeometryCollection defect (F14) -/
+def f14 : List Pt := [⟨0, 0⟩, ⟨2, 0⟩, ⟨2, 9 / 10⟩, ⟨4, 1⟩, ⟨2, 11 / 10⟩, ⟨2, 2⟩, ⟨0, 2⟩]
+
+-- a segment entering the square from the left: the right half is kept (both orientations)
+example : clipConvex (halfPlanes sq) ⟨⟨-1, 1⟩, ⟨1, 1⟩⟩ = some (1 / 2, 1) := by decide +kernel
+example : clipConvex (halfPlanes sqCW) ⟨⟨-1, 1⟩, ⟨1, 1⟩⟩ = some (1 / 2, 1) := by decide +kernel
+example : clipConvexOpen (halfPlanes sq) ⟨⟨-1, 1⟩, ⟨3, 1⟩⟩ = some (1 / 4, 3 / 4) := by decide +kernel
+-- along the lower edge: closed intersection non-empty, dropped by the convention
+example : clipConvex (halfPlanes sq) ⟨⟨-1, 0⟩, ⟨1, 0⟩⟩ = some (1 / 2, 1) := by decide +kernel
+example : clipConvexOpen (halfPlanes sq) ⟨⟨-1, 0⟩, ⟨1, 0⟩⟩ = none := by decide +kernel
+-- touching the corner (2,2) from outside: a single point, dropped
+example : clipConvex (halfPlanes sq) ⟨⟨1, 3⟩, ⟨3, 1⟩⟩ = some (1 / 2, 1 / 2) := by decide +kernel
+example : clipConvexOpen (halfPlanes sq) ⟨⟨1, 3⟩, ⟨3, 1⟩⟩ = none := by decide +kernel
+-- missing the square
+example : clipConvex (halfPlanes sq) ⟨⟨3, 0⟩, ⟨4, 5⟩⟩ = none := by decide +kernel
+-- crossing the notch of the U: two pieces
+example : clipSimple uShape ⟨⟨-1, 2⟩, ⟨4, 2⟩⟩ = [(1 / 5, 2 / 5), (3 / 5, 4 / 5)] := by decide +kernel
+-- through the reflex vertex of the L: two raw pieces, one after merging
+example : clipSimpleRaw lShape ⟨⟨0, 2⟩, ⟨2, 0⟩⟩ = [(0, 1 / 2), (1 / 2, 1)] := by decide +kernel
+example : clipSimple lShape ⟨⟨0, 2⟩, ⟨2, 0⟩⟩ = [(0, 1)] := by decide +kernel
+-- along an edge of the L and then into its interior: only the interior part
+example : clipSimple lShape ⟨⟨1, 2⟩, ⟨1, 0⟩⟩ = [(1 / 2, 1)] := by decide +kernel
+-- F14: the piece over x ∈ [0,2] is kept, the touching point (4,1) is not
+example : clipSimple f14 ⟨⟨-1, 9 / 4⟩, ⟨5, 3 / 4⟩⟩ = [(1 / 6, 1 / 2)] := by decide +kernel
+-- Sutherland–Hodgman: the triangle (-1,1,2),(1,1,1),(3,1,2) cut by 0 ≤ x ≤ 2, 0 ≤ z ≤ 2
+example : shClip [⟨1, 0, 0, 2⟩, ⟨-1, 0, 0, 0⟩, ⟨0, 0, 1, 2⟩, ⟨0, 0, -1, 0⟩] [⟨-1, 1, 2⟩, ⟨1, 1, 1⟩, ⟨3, 1, 2⟩]
+    = [⟨0, 1, 3 / 2⟩, ⟨1, 1, 1⟩, ⟨2, 1, 3 / 2⟩, ⟨2, 1, 2⟩, ⟨0, 1, 2⟩] := by decide +kernel
+
+end Examples
+
 end PorepyVerif.C44
